@@ -14,7 +14,7 @@ The cryptographic primitives are a parameter (`Prims`); nothing is assumed about
 Core only.  Tied to the code by the C05 correspondence run.
 -/
 namespace CTV.SigV
-open CTV CTV.Der CTV.SigInput
+open CTV CTV.DerSig CTV.SigInput
 
 inductive KeyKind | rsa | dsa | ecdsa | ed25519 | other
 deriving DecidableEq, Repr
